@@ -28,9 +28,15 @@ pub fn child(args: &[String]) {
     // reverse mode: the doomed message carries a *receiver* whose sender is handed to the parent beforehand
     let rev_pair = if rev { Some(platform::channel().unwrap()) } else { None };
     let mut rev_rx = None;
+    // … and the only lasting *sender* handle of an "orphan" channel whose receiver the parent holds (C03: once the truncated
+    // message is discarded no sender of that channel exists any more)
+    let mut orphan_tx = None;
     if let Some((a, b)) = rev_pair {
         boot.push(OsIpcChannel::Sender(a));
         rev_rx = Some(b);
+        let (otx, orx) = platform::channel().unwrap();
+        boot.push(OsIpcChannel::Receiver(orx));
+        orphan_tx = Some(otx);
     }
     tx.send(b"boot", boot, vec![]).unwrap();
     // one complete message before the crash: must be delivered intact whatever happens next
@@ -72,6 +78,9 @@ pub fn child(args: &[String]) {
     let (mut atts, _keep) = mk_atts();
     if let Some(b) = rev_rx.take() {
         atts.push(OsIpcChannel::Receiver(b));
+    }
+    if let Some(o) = orphan_tx.take() {
+        atts.push(OsIpcChannel::Sender(o));
     }
     ip::CALLNO.store(0, Ordering::SeqCst);
     ip::CRASH_AT.store(k, Ordering::SeqCst);
@@ -435,6 +444,7 @@ fn stale_receiver_case(sys: usize, len: usize, k: usize, id: String) -> (Case, u
         .spawn()
         .unwrap();
     let (rx, _data, mut chans, _) = server.accept().unwrap();
+    let orphan_rx = chans.pop().map(|mut c| c.to_receiver());
     let rev = chans.pop().map(|mut c| c.to_sender());
     let surv = chans.pop().map(|mut c| c.to_sender());
     let mut calls = String::new();
@@ -496,6 +506,20 @@ fn stale_receiver_case(sys: usize, len: usize, k: usize, id: String) -> (Case, u
                 "send kept reporting success ({} times over 3 s) although the receiving end was attached only to a message that was discarded (sender killed before call {} of {})",
                 oks, k, ncalls
             ));
+        }
+    }
+    // the orphan channel: its only sender handle travelled inside the discarded message (the child process is dead), so a
+    // blocking receive on it must report disconnection — while the owner of the carrying channel is still blocked in recv()
+    if partial && case.oracle.is_none() {
+        if let Some(orx) = orphan_rx {
+            match crate::util::with_watchdog(4, move || orx.recv().map(|x| x.0.len())) {
+                Some(Err(_)) => {},
+                Some(Ok(n)) => case.fail(format!("the orphan channel delivered a message of {} bytes nobody sent", n)),
+                None => case.fail(format!(
+                    "recv() on a channel whose last sender handle was attached to a discarded message is still blocked after 4 s (sender killed before call {} of {})",
+                    k, ncalls
+                )),
+            }
         }
     }
     if let Some(s) = &surv {
